@@ -203,15 +203,35 @@ def interleave(ctx, path, chunk):
     return out
 
 
+def zero_actions_final(out_path, module_names):
+    """like common.coverage_zero_actions, but on the LAST coverage report only: TLC also prints interim reports every
+    minute, in which actions of deeper levels legitimately still have count 0"""
+    last = {}
+    rx = re.compile(r"^<(\w+) line \d+, col \d+ to line \d+, col \d+ of module (\w+)>: (\d+):(\d+)")
+    for line in open(out_path):
+        m = rx.match(line)
+        if m and m.group(2) in module_names:
+            last[m.group(1)] = int(m.group(4))
+    if not last:
+        raise ToolError("no coverage report in %s" % out_path)
+    return sorted(k for k, v in last.items() if v == 0)
+
+
 def model_run(ctx):
     gbits = 2 if ctx.quick else 3
     g = 2 ** gbits
     ops = "{" + ", ".join('"%s"' % o for o in ALL_OPS) + "}"
-    r = tlc_mc(ctx, "MC_Blend", constants={"GBits": gbits, "Ops": ops, "AssertPlusRange": '"no"'}, tag="blend_model", workers=6,
-               timeout=1500)
-    zero = coverage_zero_actions(r.out_path, {"Blend", "MC_Blend"})
+    # vacuity control with -coverage on a slice (three operations, every second grid value) that takes every action:
+    # coverage slows the exact arithmetic down about 20x. The state-count identity below is the complete control for
+    # the full run: it holds iff every case state has its `done` successor, i.e. iff its action was enabled ...
+    r = tlc_mc(ctx, "MC_Blend", constants={"GBits": 2, "Ops": '{"soft_light", "xor", "premul"}', "EnumStep": 2, "AssertPlusRange": '"no"'},
+               tag="blend_model_cov", workers=3, timeout=900)
+    zero = zero_actions_final(r.out_path, {"Blend", "MC_Blend"})
     if zero:
         raise ToolError("vacuity: actions never taken in MC_Blend: %s" % zero)
+    # ... and every operation on the whole grid without
+    r = tlc_mc(ctx, "MC_Blend", constants={"GBits": gbits, "Ops": ops, "AssertPlusRange": '"no"'}, tag="blend_model", workers=6,
+               coverage=False, timeout=1500)
     cases = (g + 1) ** 4
     want = len(ALL_OPS) * ((g + 1) + 2 * cases)
     if r.distinct != want:
